@@ -12,6 +12,27 @@
 (*                           "x","y" bound to list inputs,                 *)
 (*         comb : sequence of axes <<node, field>> to combine ]            *)
 (*                                                                         *)
+(* A node may SPLIT OVER AN UPSTREAM OUTPUT (a split field whose source is a *)
+(* node): the value delivered for every upstream coordinate is taken apart *)
+(* (AsList: a list value gives its elements, a term [n, x, y] - a Python    *)
+(* list of three - gives name, x, y) and the node's own axis ranges over    *)
+(* the positions.  The lengths must agree over all upstream coordinates     *)
+(* (else flagged badsplit and not replayed).  A LIST-MAKER node (mk = k >= 0)*)
+(* returns the k-element list [[n, 0, x], .., [n, k-1, x]]; k = 0 gives the *)
+(* empty list, hence nodes with ZERO jobs: a fully combined node without    *)
+(* jobs still has one (empty-list) output and its consumers run.            *)
+(*                                                                         *)
+(* A node may be a NESTED WORKFLOW (field inner):                           *)
+(*   "none"   a plain task                                                 *)
+(*   "chain1" an inner workflow of one task  i0(x, y)                      *)
+(*   "chain2" an inner workflow  i1(x = i0(x, y).out)                      *)
+(*   "split" / "splitc"  an inner workflow whose task i0 SPLITS over the   *)
+(*            elements of its list input x (and combines them again):      *)
+(*            its output is the list of the per-element terms.             *)
+(* A nested workflow is one node of the outer graph: it is split, combined *)
+(* and aligned like any other node, each of its jobs evaluates the inner   *)
+(* graph on that job's input values (JobTerm).                             *)
+(*                                                                         *)
 (* Every node exposes Coords = the ordered list of assignments of its      *)
 (* remaining axes (one per output element).  The jobs of a node are the    *)
 (* NATURAL JOIN of the coordinate lists of its upstream nodes (in input    *)
@@ -29,6 +50,23 @@ Whole(inp, n) == [t |-> "list", v |-> [k \in 1..n |-> Elem(inp, k - 1)]]
 Scalar(inp) == [t |-> "scalar", inp |-> inp]
 Term(n, x, y) == [t |-> "term", n |-> n, x |-> x, y |-> y]
 ListOf(vs) == [t |-> "list", v |-> vs]
+Str(x) == [t |-> "str", s |-> x]
+IntV(i) == [t |-> "int", i |-> i]
+Splittable(v) == v.t \in {"list", "term"}
+AsList(v) == IF v.t = "list" THEN v.v ELSE IF v.t = "term" THEN <<Str(v.n), v.x, v.y>> ELSE <<>>
+MkOf(nd) == IF "mk" \in DOMAIN nd THEN nd.mk ELSE 0 - 1
+
+InnerKind(nd) == IF "inner" \in DOMAIN nd THEN nd.inner ELSE "none"
+InnerSplits(nd) == InnerKind(nd) \in {"split", "splitc"}
+(* the value one job of node nd produces from its input values *)
+JobTerm(nd, xv, yv) ==
+  LET nm == nd.name IN
+  CASE InnerKind(nd) = "none"   -> Term(nm, xv, yv)
+    [] InnerKind(nd) = "chain1" -> Term(nm \o "_i0", xv, yv)
+    [] InnerKind(nd) = "chain2" -> Term(nm \o "_i1", Term(nm \o "_i0", xv, yv), NoneVal)
+    [] InnerSplits(nd)      -> IF xv.t = "list"
+                               THEN ListOf([k \in 1..Len(xv.v) |-> Term(nm \o "_i0", xv.v[k], yv)])
+                               ELSE NoneVal       \* flagged badinner, never replayed
 
 Fields == <<"x", "y">>
 SplitFields(nd) == IF nd.hassplit THEN Range(FieldsOf(nd.split)) ELSE {}
@@ -59,7 +97,17 @@ EvalNode(wf, nd, info) ==
       RECURSIVE JoinUps(_, _)
       JoinUps(R, k) == IF k > Len(ups) THEN R ELSE JoinUps(Join(R, info[ups[k].v].keys), k + 1)
       R0   == JoinUps(<< <<>> >>, 1)       \* one empty assignment (the empty function)
-      lens == [f \in SplitFields(nd) |-> wf.ins[(IF f = "x" THEN nd.x ELSE nd.y).v]]
+      srcOf(f) == IF f = "x" THEN nd.x ELSE nd.y
+      NF   == {f \in SplitFields(nd) : srcOf(f).k = "node"}        \* split over an upstream output
+      uv(r, f) == info[srcOf(f).v].out[RestrictTo(r, info[srcOf(f).v].rem)]
+      lenOf(f) == IF f \in NF THEN (IF Len(R0) = 0 THEN 0 ELSE Len(AsList(uv(R0[1], f))))
+                  ELSE wf.ins[srcOf(f).v]
+      badsplit == \E f \in NF : \E i \in 1..Len(R0) :
+                     ~Splittable(uv(R0[i], f)) \/ Len(AsList(uv(R0[i], f))) # lenOf(f)
+      \* class cN of a recorded finding: splitting over the output of a node that still HAS a state
+      \* ("inner splitter" below an upstream state)
+      innerstate == \E f \in NF : info[srcOf(f).v].rem # {}
+      lens == [f \in SplitFields(nd) |-> lenOf(f)]
       ok   == ~nd.hassplit \/ WellShaped(nd.split, lens)
       ex   == IF nd.hassplit /\ ok THEN Expand(nd.split, lens) ELSE << <<>> >>
       own(e) == [a \in {<<nm, f>> : f \in DOMAIN e} |-> e[a[2]]]
@@ -71,19 +119,30 @@ EvalNode(wf, nd, info) ==
         ELSE IF s.k = "wf" THEN
              (IF wf.ins[s.v] = 0 THEN Scalar(s.v)
               ELSE IF f \in SplitFields(nd) THEN Elem(s.v, r[<<nm, f>>]) ELSE Whole(s.v, wf.ins[s.v]))
-        ELSE info[s.v].out[RestrictTo(r, info[s.v].rem)]
-      jobs == [i \in 1..Len(R) |-> Term(nm, val(R[i], nd.x, "x"), val(R[i], nd.y, "y"))]
+        ELSE LET u == info[s.v].out[RestrictTo(r, info[s.v].rem)] IN
+             IF f \in SplitFields(nd) THEN (IF badsplit THEN NoneVal ELSE AsList(u)[r[<<nm, f>>] + 1]) ELSE u
+      jobval(r) == LET xv == val(r, nd.x, "x")  yv == val(r, nd.y, "y") IN
+                   IF MkOf(nd) >= 0 THEN ListOf([k \in 1..MkOf(nd) |-> Term(nm, IntV(k - 1), xv)])
+                   ELSE JobTerm(nd, xv, yv)
+      jobs == [i \in 1..Len(R) |-> jobval(R[i])]
+      badinner == InnerSplits(nd) /\ \E i \in 1..Len(R) : val(R[i], nd.x, "x").t # "list"
       upz  == UNION {info[ups[k].v].zrem : k \in 1..Len(ups)}
       ownz == IF nd.hassplit /\ ok THEN {{<<nm, f>> : f \in g} : g \in Range(AxesOf(nd.split))} ELSE {}
       zg   == upz \cup ownz
-      allaxes == IF Len(R) = 0 THEN {} ELSE DOMAIN R[1]
+      allaxes == UNION {info[ups[k].v].rem : k \in 1..Len(ups)} \cup
+                 (IF nd.hassplit /\ ok THEN {<<nm, f>> : f \in SplitFields(nd)} ELSE {})
       comb == Range(nd.comb)
       clos == UNION {g \in zg : g \cap comb # {}} \cup (comb \cap allaxes)
       rem  == allaxes \ clos
       keyOf(i) == RestrictTo(R[i], rem)
-      keys == Dedup([i \in 1..Len(R) |-> keyOf(i)], {})
+      \* a node without remaining axes has exactly one output - also when it ran no job at all
+      keys == IF rem = {} /\ (ok \/ ~nd.hassplit) THEN << <<>> >> ELSE Dedup([i \in 1..Len(R) |-> keyOf(i)], {})
       outv(k) == LET idx == SelectSeq([i \in 1..Len(R) |-> i], LAMBDA i : keyOf(i) = k) IN
-                 IF clos = {} THEN jobs[idx[1]] ELSE ListOf([j \in 1..Len(idx) |-> jobs[idx[j]]])
+                 IF idx = <<>> THEN ListOf(<<>>)
+                 ELSE IF clos = {} THEN jobs[idx[1]] ELSE ListOf([j \in 1..Len(idx) |-> jobs[idx[j]]])
+      \* zero jobs under a PARTIAL combiner: the nested loops over the remaining axes would still run;
+      \* the join formulation cannot express it - flagged, not replayed
+      emptypartial == Len(R) = 0 /\ rem # {} /\ clos # {}
       (* structural classes used ONLY to name recorded known findings (DESIGN section 7) *)
       ancOf(k) == info[ups[k].v].anc \cup {ups[k].v}
       shared(i, j) == info[ups[i].v].rem \cap info[ups[j].v].rem
@@ -107,6 +166,7 @@ EvalNode(wf, nd, info) ==
       zrem |-> {g \ clos : g \in zg} \ {{}}, njobs |-> Len(R), combined |-> clos # {},
       partial |-> (clos # comb \cap allaxes), cD |-> cD, cP |-> cP, cI |-> cI,
       noalign |-> prodUps * (IF nd.hassplit THEN Len(ex) ELSE 1), allaxes |-> allaxes,
+      badinner |-> badinner, badsplit |-> badsplit, emptypartial |-> emptypartial, innerstate |-> innerstate,
       anc |-> UNION {ancOf(k) : k \in 1..Len(ups)}, direct |-> {ups[k].v : k \in 1..Len(ups)}, ownsplit |-> nd.hassplit]
 
 RECURSIVE EvalFrom(_, _, _)
@@ -130,6 +190,10 @@ Result(wf) ==
     outs     |-> [k \in 1..Len(wf.outs) |-> OutOf(info, wf.outs[k])],
     njobs    |-> [k \in 1..Len(wf.nodes) |-> info[wf.nodes[k].name].njobs],
     classes  |-> [k \in 1..Len(wf.nodes) |-> LET u == info[wf.nodes[k].name] IN
-                    [cD |-> u.cD, cP |-> u.cP, cI |-> u.cI, noalign |-> u.noalign]],
+                    [cD |-> u.cD, cP |-> u.cP, cI |-> u.cI, cN |-> u.innerstate, noalign |-> u.noalign]],
+    badinner |-> \E k \in 1..Len(wf.nodes) : info[wf.nodes[k].name].badinner,
+    badsplit |-> \E k \in 1..Len(wf.nodes) : info[wf.nodes[k].name].badsplit,
+    emptypartial |-> \E k \in 1..Len(wf.nodes) : info[wf.nodes[k].name].emptypartial,
+    innerstate |-> \E k \in 1..Len(wf.nodes) : info[wf.nodes[k].name].innerstate,
     absent   |-> \E k \in 1..Len(wf.nodes) : \E a \in Range(wf.nodes[k].comb) : a \notin info[wf.nodes[k].name].allaxes ]
 =============================================================================
